@@ -26,6 +26,8 @@ type Director struct {
 	n    int
 	// faultWithdrawOnly: storage errors are armed only while a withdrawal is in flight
 	faultWithdrawOnly bool
+	// faultBigUpdateOnly: storage errors are armed only while a keep-alive that reports two or more different peers is in flight
+	faultBigUpdateOnly bool
 	// faultConnectOnly: ... only while a registration is in flight
 	faultConnectOnly bool
 	// lastNonce per identity (director-side monotone nonces)
@@ -510,6 +512,18 @@ func (d *Director) update(a *Actor, reported []string, block uint64, oldFormat b
 		seenBefore = n.LastSeen
 	}
 	hostsBefore := w.nextSeq()
+	if d.faultBigUpdateOnly {
+		distinct := map[string]bool{}
+		for _, r := range reported {
+			if r != a.ID {
+				distinct[r] = true
+			}
+		}
+		if len(distinct) >= 2 {
+			w.YS.SetDisarmed(false)
+			defer w.YS.SetDisarmed(true)
+		}
+	}
 	t0 := time.Now()
 	ctx, cancel := d.ctx()
 	defer cancel()
